@@ -217,12 +217,22 @@ def _write_chunks(res, kind, fn, inputs, outdir, real_optimize):
     if real_optimize:
         import litdata as ld
 
+        # litdata's intermediate folders default to <tempdir>/chunks and <tempdir>/data: keep them in the case's scratch dir
+        saved = {k: os.environ.get(k) for k in ("DATA_OPTIMIZER_CACHE_FOLDER", "DATA_OPTIMIZER_DATA_CACHE_FOLDER")}
+        os.environ["DATA_OPTIMIZER_CACHE_FOLDER"] = outdir + "-tmp/chunks"
+        os.environ["DATA_OPTIMIZER_DATA_CACHE_FOLDER"] = outdir + "-tmp/data"
         try:
             with _Quiet():
                 ld.optimize(fn=fn, inputs=inputs, output_dir=outdir, num_workers=1, chunk_size=100)
         except Exception as e:  # noqa: BLE001  (a chunk function failing in the worker surfaces as a litdata error here)
             _fail(res, f"frameworks:{kind}:ld.optimize:raise", f"ld.optimize failed on valid labelled frames: {type(e).__name__}: {str(e)[:300]}")
             return runner.FAILED
+        finally:
+            for k, v in saved.items():
+                if v is None:
+                    os.environ.pop(k, None)
+                else:
+                    os.environ[k] = v
         if not any(f.endswith(".bin") for f in os.listdir(outdir)):
             _fail(res, f"frameworks:{kind}:ld.optimize:no-chunks", "ld.optimize finished without writing a chunk file (worker failed)")
             return runner.FAILED
